@@ -418,6 +418,14 @@ def run_config(cfg, depth, res, only=None):
                     prev_var = None
                 else:
                     do_add(model, kind, op, counter, d, m, held)
+                if op != "update" and data_at_update is not None and k == len(seq) - 2:
+                    # between updates the model still answers for the data it held at its LAST update
+                    # (compared once per sequence, right before the final update)
+                    v, _ = compare(model, kind, cfg, data_at_update, res, list(seq[: k + 1]) + ["<predict without update>"], None)
+                    if v is not None:
+                        v["key"]["kind"] = "stale-" + v["key"]["kind"]
+                        v["case"]["seq"] = list(seq)  # the replay runs the whole sequence (the stale comparison is part of it)
+                        break
             if v is None and L == 1:
                 v = check_hyper_report(model, kind, cfg, res, seq)
             if v is not None:
